@@ -14,7 +14,7 @@ use std::rc::Rc;
 pub const DEF: PropDef = PropDef {
     id: "C08",
     level: "fault_enumeration",
-    rule: "all sequences of <=4 (thorough <=6) statements over {say \"a\", say x, say x plus 1, listen to x, listen, listen to y at 0, put 1 into z, say y at 0, say 1.5, say of a string ending in a line break, say of the empty string} x 16 inputs (empty, blank lines between non-blank lines, missing final newline, blank lines, non-ASCII, a 9000-byte line, lines ending exactly at / before / after the 8 KiB buffer boundary, invalid UTF-8) x every schedule of environment answers with at most d deviations from the default (writer: 1-byte short write, Interrupted, Ok(0), Err(Other), Err(BrokenPipe); reader: 1-byte read, whole-input read, Interrupted, Err(Other)), d=2 everywhere and d=3 on programs of <=2 statements (thorough: d=2 everywhere, d=3 on <=4, d=4 on <=3); second family: every I/O body (all sequences of 1..2 of say \"a\" / say x / listen to x / listen) placed in each of 27 syntactic contexts (top level; a function called as a statement, in an output, an assignment, an if / while / until condition, a return value, list operands, a rock list, a read and a written subscript, a compound assignment, both sides of short-circuit operators, a cut parameter, call arguments, nested calls, recursion before and after the recursive call; then / else / while / until bodies, after continue, before break) x 2 tails (an output, a listen) x 4 inputs, d=2 (thorough d=3); default reader delivers one line per call so that every listen maps to its own read call; a case = (program, input), explored over all its schedules; non-trivial = the program performs at least one I/O call; distinct = distinct (program, input)",
+    rule: "all sequences of <=4 (thorough <=6) statements over {say \"a\", say x, say x plus 1, listen to x, listen, listen to y at 0, put 1 into z, say y at 0, say 1.5, say of a string ending in a line break, say of the empty string} x 16 inputs (empty, blank lines between non-blank lines, missing final newline, blank lines, non-ASCII, a 9000-byte line, lines ending exactly at / before / after the 8 KiB buffer boundary, invalid UTF-8) x every schedule of environment answers with at most d deviations from the default (writer: 1-byte short write, Interrupted, Ok(0), Err(Other), Err(BrokenPipe); reader: 1-byte read, whole-input read, Interrupted, Err(Other)), d=2 everywhere and d=3 on programs of <=2 statements (thorough: d=2 everywhere, d=3 on <=4, d=4 on <=3); third family: 4 listen programs x 4 inputs with lines of 65 535 / 65 536 / 65 538 (a multi-byte character across the mark) / 200 000 bytes, d=1; second family: every I/O body (all sequences of 1..2 of say \"a\" / say x / listen to x / listen) placed in each of 27 syntactic contexts (top level; a function called as a statement, in an output, an assignment, an if / while / until condition, a return value, list operands, a rock list, a read and a written subscript, a compound assignment, both sides of short-circuit operators, a cut parameter, call arguments, nested calls, recursion before and after the recursive call; then / else / while / until bodies, after continue, before break) x 2 tails (an output, a listen) x 4 inputs, d=2 (thorough d=3); default reader delivers one line per call so that every listen maps to its own read call; a case = (program, input), explored over all its schedules; non-trivial = the program performs at least one I/O call; distinct = distinct (program, input)",
     assumptions: &[
         "reference line model from the property text; CR is not in the input alphabet (U-crlf)",
         "the number of read calls per listen is not judged (buffering is allowed); what is judged: every read call happens when exactly the output due before some listen has been written, the first read at the first listen",
@@ -60,6 +60,39 @@ pub fn inputs() -> Vec<Vec<u8>> {
             let mut v = vec![b'p'; 8190];
             v.push(b'\n');
             v.extend(vec![b'r'; 8193]);
+            v.push(b'\n');
+            v.extend_from_slice(b"q");
+            v
+        },
+    ]
+}
+
+/// very long lines: explored in their own family with few programs and one deviation, since every 8 KiB
+/// piece of such a line is a call point
+pub fn long_inputs() -> Vec<Vec<u8>> {
+    vec![
+        // lines around 64 KiB (one below, exactly, one above, with a multi-byte character across the mark) and a 200 000-byte line
+        {
+            let mut v = vec![b's'; 65535];
+            v.push(b'\n');
+            v.extend_from_slice(b"q\n");
+            v
+        },
+        {
+            let mut v = vec![b's'; 65536];
+            v.push(b'\n');
+            v.extend_from_slice(b"q\n");
+            v
+        },
+        {
+            let mut v = vec![b's'; 65535];
+            v.extend_from_slice("éé".as_bytes());
+            v.push(b'\n');
+            v.extend_from_slice(b"q\n");
+            v
+        },
+        {
+            let mut v = vec![b't'; 200000];
             v.push(b'\n');
             v.extend_from_slice(b"q");
             v
@@ -314,10 +347,18 @@ fn context_cases() -> Vec<(String, usize, usize)> {
 fn build(tier: Tier) -> Box<dyn Check> {
     let s: Space<&'static str> = Space::of(STMTS.to_vec());
     let progs = s.seq_range(1, tier.pick(4, 6));
-    let ins = inputs();
+    let mut ins = inputs();
     let idx: Space<usize> = Space::of((0..ins.len()).collect());
     let flat = progs.product(&idx, |p, i| (p.concat(), p.len(), i));
-    Box::new(C08 { fams: vec![("program x input".into(), flat), ("I/O in every context x input".into(), Space::of(context_cases()))], inputs: ins, tier })
+    let first_long = ins.len();
+    ins.extend(long_inputs());
+    let mut long_cases = Vec::new();
+    for p in ["listen to x\nsay x\n", "listen to x\nlisten to y\nsay y\nsay x\n", "listen\nlisten to x\nsay x\n", "say \"a\"\nlisten to x\nsay x\nlisten to y\nsay y\nlisten to z\nsay z\n"] {
+        for i in first_long..ins.len() {
+            long_cases.push((p.to_string(), usize::MAX, i));
+        }
+    }
+    Box::new(C08 { fams: vec![("program x input".into(), flat), ("I/O in every context x input".into(), Space::of(context_cases())), ("long lines".into(), Space::of(long_cases))], inputs: ins, tier })
 }
 
 fn show_schedule(s: &[(usize, Alt)]) -> String {
@@ -471,7 +512,10 @@ impl Check for C08 {
         }
         ctx.observe(&a.env.written);
         ctx.observe_str(&format!("{:?}|{}", a.result, a.env.log.len()));
-        let depth = match self.tier {
+        let depth = if nst == usize::MAX {
+            1
+        } else {
+            match self.tier {
             Tier::Quick => {
                 if nst <= 2 {
                     3
@@ -487,6 +531,7 @@ impl Check for C08 {
                 } else {
                     2
                 }
+            }
             }
         };
         let mut viol = 0usize;
